@@ -147,8 +147,8 @@ func runC12(c *core.Ctx) {
 					lk := ""
 					if ir, ok := idle[tg.n]; ok {
 						lk = ir.lockOf(p, a.in)
-					} else if mu != nil && heldAt(a.in, mu) {
-						lk = "W"
+					} else if mu != nil {
+						lk = lockKind(p, a.in, mu)
 					}
 					if lk == "W" || (lk == "R" && !a.write) {
 						nLocked++
@@ -215,6 +215,9 @@ func runC12(c *core.Ctx) {
 			core.AllInstrs(fn, func(x ssa.Instruction) {
 				if _, isDefer := x.(*ssa.Defer); isDefer && mutexCall(x, fv, "Unlock", "RUnlock") {
 					deferred = true
+				}
+				if ssa.WasDeferred(x) && mutexCall(x, fv, "Unlock", "RUnlock") {
+					deferred = true // unlock of an inlined lock helper (deferred in the program as written)
 				}
 			})
 			okr := deferred
@@ -343,7 +346,7 @@ func collectAccesses(p *core.Prog, f *types.Var) []fieldAccess {
 				if isOptionClosureParam(fn, x.X) {
 					return // configuration applied by the constructor before the object is published
 				}
-				for _, ref := range *x.Referrers() {
+				for _, ref := range core.AddrUses(x) {
 					switch r := ref.(type) {
 					case *ssa.Store:
 						if r.Addr == ssa.Value(x) {
